@@ -37,7 +37,7 @@ pub struct Case {
 }
 
 fn case_strategy() -> impl Strategy<Value = Case> {
-    (proptest::sample::select(vec![0u32, 1, 3, 10, 500]), proptest::sample::select(vec![0u32, 0, 2, 30]), proptest::collection::btree_map((0u32..14, 0u32..6), prop_oneof![(-100i32..100).prop_map(|i| V::N(i as f64 / 4.0)), "[a-z]{1,5}".prop_map(V::S)], 1..25))
+    (proptest::sample::select(vec![0u32, 0, 1, 3, 10, 500, 65_522, 1_048_562]), proptest::sample::select(vec![0u32, 0, 2, 30]), proptest::collection::btree_map((0u32..14, 0u32..6), prop_oneof![(-100i32..100).prop_map(|i| V::N(i as f64 / 4.0)), "[a-z]{1,5}".prop_map(V::S)], 1..25))
         .prop_flat_map(|(r0, c0, cells)| {
             // make sure the first generated row is r0 (so that r0 is the first data row)
             let min_r = cells.keys().map(|p| p.0).min().unwrap();
@@ -45,7 +45,12 @@ fn case_strategy() -> impl Strategy<Value = Case> {
             let rows: Vec<u32> = cells.iter().map(|(p, _)| p.0).collect();
             let last = *rows.iter().max().unwrap();
             let gaps: Vec<u32> = (r0..last).filter(|r| !rows.contains(r)).collect();
-            let mut ns = vec![0, r0.saturating_sub(1), r0, last, last + 1, last + 1000, 1 << 31, u32::MAX];
+            // (a header row far above data near the end of the sheet would make the dense range huge:
+            // row 0 is only offered when the data starts near the top)
+            let mut ns = vec![r0.saturating_sub(1), r0, last, last + 1, last + 1000, 1 << 31, u32::MAX];
+            if r0 <= 500 {
+                ns.push(0);
+            }
             ns.extend(rows.iter().copied());
             ns.extend(gaps.iter().copied());
             let opt = prop_oneof![1 => Just(Opt::Default), 5 => proptest::sample::select(ns).prop_map(Opt::Row)];
@@ -245,6 +250,18 @@ where
                 }
             }
         }
+        // the option stays in force: a further read without setting it again answers the same
+        match guard(|| wb.worksheet_range("H")) {
+            Ok(Ok(r)) => reads.push(("worksheet_range (second read under the same option)".into(), r)),
+            Ok(Err(e)) => {
+                rep.fail(format!("{what}: second worksheet_range failed: {e:?}"));
+                return;
+            }
+            Err(p) => {
+                rep.fail(format!("{what}: second worksheet_range: {p}"));
+                return;
+            }
+        }
         for (name, got) in reads {
             let res = match o {
                 Opt::Default => check_range(&got, &expected, &format!("{what}: {name}")),
@@ -302,6 +319,24 @@ fn oracle(case: &Case) -> Report {
         match crate::props::c02::open_xls(xls_bytes(case)) {
             Ok(mut wb) => drive(&mut wb, case, "xls", None, &mut rep),
             Err(e) => rep.fail(e),
+        }
+        // the xls reader also takes the option at construction (XlsOptions::header_row)
+        if let (false, Some(Opt::Row(n))) = (rep.failed(), case.history.iter().find(|o| matches!(o, Opt::Row(_)))) {
+            let bytes = xls_bytes(case);
+            let r = guard(|| {
+                let mut d = calamine::Xls::new(Cursor::new(bytes.clone())).map_err(|e| format!("{e:?}"))?;
+                let default = d.worksheet_range("H").map_err(|e| format!("{e:?}"))?;
+                let mut o = calamine::XlsOptions::default();
+                o.header_row = HeaderRow::Row(*n);
+                let mut wb = calamine::Xls::new_with_options(Cursor::new(bytes.clone()), o).map_err(|e| format!("{e:?}"))?;
+                let got = wb.worksheet_range("H").map_err(|e| format!("{e:?}"))?;
+                check_row_n(&default, &got, *n, &format!("xls: XlsOptions {{ header_row: Row({n}) }} at construction"))
+            });
+            match r {
+                Ok(Ok(())) => rep.label("xls:option-at-construction"),
+                Ok(Err(e)) => rep.fail(e),
+                Err(p) => rep.fail(format!("xls: new_with_options: {p}")),
+            }
         }
         if rep.failed() {
             return rep;
